@@ -8,5 +8,10 @@ if ! PYTHONPATH="$HERE/.deps" "$PY" -c "import hypothesis" 2>/dev/null; then
   mkdir -p "$HERE/.deps"
   "$PY" -m pip install --no-index --find-links /opt/veriftools/wheels --target "$HERE/.deps" hypothesis || exit 1
 fi
+# optional: atheris for the coverage-guided fuzz phase of the thorough tier (skipped, and said so in the evidence, if absent)
+if ! PYTHONPATH="$HERE/.deps" "$PY" -c "import atheris" 2>/dev/null; then
+  mkdir -p "$HERE/.deps"
+  "$PY" -m pip install -q --no-index --find-links /opt/veriftools/wheels --target "$HERE/.deps" atheris 2>/dev/null || echo "setup: atheris not installed (fuzz phase will be skipped)"
+fi
 PYTHONPATH="/repo:$HERE:$HERE/.deps" "$PY" -c "import hypothesis, tv.env; print('setup ok: hypothesis', hypothesis.__version__)" || exit 1
 mkdir -p "$HERE/evidence" "$HERE/replays"
